@@ -339,6 +339,11 @@ pub const MAX_NEST_DEPTH: u32 = 3;
 
 /// Resolves `op` against the current state. `None` = the op has no valid target in this state
 /// (e.g. attribute op but no element exists) and is skipped.
+/// the shared type a path leads to
+pub fn follow<T: ReadTxn>(txn: &T, roots: &Roots, path: &[Seg]) -> Option<Out> {
+    targets(txn, roots).into_iter().find(|t| t.path == path).map(|t| t.out)
+}
+
 pub fn resolve<T: ReadTxn>(txn: &T, roots: &Roots, op: &Op, alloc: &mut Alloc) -> Option<Resolved> {
     let all = targets(txn, roots);
     let done = |t: &Target, cop: COp| Some(Resolved { path: t.path.clone(), cop, target: Some(t.out.clone()) });
